@@ -1,6 +1,7 @@
 (* Proofs/Dtd.v — theorems about Model/Dtd.v (the faithful model of DtdParser + DtdMapper):
-   dtd_capacity_refuted_*   the full-strength capacity statement is false (witnesses by vm_compute)
-   dtd_capacity             ... and holds under the guards guard_seq / guard_or
+   dtd_capacity             for EVERY content tree the attrs keep capacity and never over-require
+                            (full strength since the fixes 160d460 / 1017a9f in /repo; the former
+                            refutations for (a,b)*, (a,b)?, (a*|b) and their guard clauses are gone)
    dtd_attr_defaults        #REQUIRED / #IMPLIED / #FIXED / default -> a field that re-materialises them *)
 From Coq Require Import NArith List Bool Arith Lia String.
 From XV Require Import Base.Str Base.Eqb Spec.Cm Spec.Dtd Gen.DtdTables Model.Dtd Model.DtdCorr Proofs.Cm.
@@ -81,18 +82,18 @@ Definition kid_attrs (x : option dtd_content) (kw : kwargs) (p : path) : list at
   match x with Some l => build_content l kw p | None => [] end.
 
 Lemma bc_element name o l r kw p :
-  build_content (DC name M_ELEMENT o l r) kw p = [build_element (oname name) (build_restrictions o kw)].
+  build_content (DC name M_ELEMENT o l r) kw p = [build_element (oname name) (merge_occurs o kw)].
 Proof. reflexivity. Qed.
 Lemma bc_seq name o l r kw p :
-  build_content (DC name M_SEQ o l r) kw p = kid_attrs l kw (p ++ [false]) ++ kid_attrs r kw (p ++ [true]).
+  build_content (DC name M_SEQ o l r) kw p =
+  kid_attrs l (merge_occurs o kw) (p ++ [false]) ++ kid_attrs r (merge_occurs o kw) (p ++ [true]).
 Proof. destruct l, r; reflexivity. Qed.
 Lemma bc_or name o l r kw p :
   build_content (DC name M_OR o l r) kw p =
-  let kw' := match kw with Some k => Some k | None => Some (0%N, snd (build_occurs o), p) end in
-  kid_attrs l kw' (p ++ [false]) ++ kid_attrs r kw' (p ++ [true]).
+  kid_attrs l (or_params o kw p) (p ++ [false]) ++ kid_attrs r (or_params o kw p) (p ++ [true]).
 Proof. destruct l, r; reflexivity. Qed.
 Lemma bc_pcdata name o l r kw p :
-  build_content (DC name M_PCDATA o l r) kw p = [build_value (build_restrictions o kw)].
+  build_content (DC name M_PCDATA o l r) kw p = [build_value (merge_occurs o kw)].
 Proof. reflexivity. Qed.
 
 Definition kid_cms (x : option raw_content) : option (list cm) :=
@@ -143,12 +144,17 @@ Proof. unfold cap. rewrite attrs_for_value. reflexivity. Qed.
 Lemma minsum_value r q : minsum [build_value r] q = 0.
 Proof. unfold minsum. rewrite attrs_for_value. reflexivity. Qed.
 
-Lemma cap_element_unbounded n mn ch q :
-  cap [build_element n (mn, sys_maxsize, ch)] q = if str_eqb n q then None else Some 0.
-Proof. unfold cap. rewrite attrs_for_element. destruct (str_eqb n q); reflexivity. Qed.
-Lemma cap_element_one n mn ch q :
-  cap [build_element n (mn, 1%N, ch)] q = if str_eqb n q then Some 1 else Some 0.
-Proof. unfold cap. rewrite attrs_for_element. destruct (str_eqb n q); reflexivity. Qed.
+(* max_occurs as an extended natural: sys.maxsize (or more) is unbounded *)
+Definition E (mx : N) : enat := if (sys_maxsize <=? mx)%N then None else Some (N.to_nat mx).
+Lemma E_one : E 1%N = Some 1. Proof. reflexivity. Qed.
+Lemma E_max : E sys_maxsize = None. Proof. reflexivity. Qed.
+
+Lemma cap_element n mn mx ch q :
+  cap [build_element n (mn, mx, ch)] q = if str_eqb n q then E mx else Some 0.
+Proof.
+  unfold cap. rewrite attrs_for_element. destruct (str_eqb n q); [|reflexivity].
+  cbn [map]. unfold esum. cbn [fold_right]. rewrite eadd_0_r. reflexivity.
+Qed.
 Lemma minsum_element n mn mx ch q :
   minsum [build_element n (mn, mx, ch)] q = if str_eqb n q then N.to_nat mn else 0.
 Proof. unfold minsum. rewrite attrs_for_element. destruct (str_eqb n q); cbn; lia. Qed.
@@ -248,335 +254,179 @@ Definition fmin (q : name) (c : cm) : nat := mincount c q.
 Lemma kids_cms_inv l r ks : kids_cms l r = Some ks -> exists a b, kid_cms l = Some a /\ kid_cms r = Some b /\ ks = a ++ b.
 Proof. unfold kids_cms. destruct (kid_cms l) as [a|], (kid_cms r) as [b|]; try discriminate. intros H; inversion H. eauto. Qed.
 
-(* ------------------------------------------------------------------ A: below a repeated choice everything is unbounded and optional *)
-Section Below.
-  Variable q : name.
-
-  Definition A_stmt (c : raw_content) : Prop :=
-    forall dc m mn ch p, parse_content c = Some dc -> cm_of_raw c = Some m ->
-      (maxcount m q = Some 0 \/ cap (build_content dc (Some (mn, sys_maxsize, ch)) p) q = None)
-      /\ (mn = 0%N -> minsum (build_content dc (Some (mn, sys_maxsize, ch)) p) q = 0).
-
-  Definition A_kid (x : option raw_content) : Prop :=
-    forall x' ks mn ch p, kid_parsed x x' -> kid_cms x = Some ks ->
-      ((esum (map (fmax q) ks) = Some 0 /\ emaxl (map (fmax q) ks) = Some 0)
-       \/ cap (kid_attrs x' (Some (mn, sys_maxsize, ch)) p) q = None)
-      /\ (mn = 0%N -> minsum (kid_attrs x' (Some (mn, sys_maxsize, ch)) p) q = 0).
-
-  Lemma A_kid_of x : (forall c, x = Some c -> A_stmt c) -> A_kid x.
-  Proof.
-    intros IH x' ks mn ch p Hp Hk. destruct x as [c|], x' as [c'|]; cbn in Hp; try contradiction.
-    - cbn [kid_cms] in Hk. destruct (cm_of_raw c) as [m|] eqn:Em; [|discriminate]. inversion Hk; subst.
-      destruct (IH c eq_refl c' m mn ch p Hp Em) as [H1 H2]. split; [|exact H2].
-      destruct H1 as [H1|H1]; [left|right; exact H1].
-      cbn [map]. unfold esum, emaxl, fmax. cbn [fold_right]. rewrite H1. split; reflexivity.
-    - inversion Hk; subst. split; [left; split; reflexivity|]. intros _. reflexivity.
-  Qed.
-
-  Lemma A_node (mk : list cm -> cm) name occur l r dc m mn ch p t o l' r' ks :
-    (mk = Seq \/ mk = Choice) ->
-    A_kid l -> A_kid r -> kid_parsed l l' -> kid_parsed r r' ->
-    kids_cms l r = Some ks -> with_occur occur (mk ks) = Some m ->
-    build_content (DC name t o l' r') (Some (mn, sys_maxsize, ch)) p =
-      kid_attrs l' (Some (mn, sys_maxsize, ch)) (p ++ [false]) ++ kid_attrs r' (Some (mn, sys_maxsize, ch)) (p ++ [true]) ->
-    dc = DC name t o l' r' ->
-    (maxcount m q = Some 0 \/ cap (build_content dc (Some (mn, sys_maxsize, ch)) p) q = None)
-    /\ (mn = 0%N -> minsum (build_content dc (Some (mn, sys_maxsize, ch)) p) q = 0).
-  Proof.
-    intros Hmk Al Ar Pl Pr Hk Hw Hbc ->. rewrite Hbc.
-    apply kids_cms_inv in Hk as [a [b [Ka [Kb ->]]]].
-    destruct (Al l' a mn ch (p ++ [false]) Pl Ka) as [L1 L2].
-    destruct (Ar r' b mn ch (p ++ [true]) Pr Kb) as [R1 R2].
-    split.
-    - rewrite cap_app.
-      destruct L1 as [[Ls Lm]|L1]; [|right; rewrite L1; reflexivity].
-      destruct R1 as [[Rs Rm]|R1]; [|right; rewrite R1; apply eadd_none_r].
-      left. destruct (with_occur_spec _ _ _ Hw) as [n0 [mx [_ Hq]]]. destruct (Hq q) as [Hmax _]. rewrite Hmax.
-      assert (E : maxcount (mk (a ++ b)) q = Some 0).
-      { destruct Hmk as [-> | ->].
-        - rewrite maxcount_seq. change (fun c => maxcount c q) with (fmax q). rewrite map_app, esum_app, Ls, Rs. reflexivity.
-        - rewrite maxcount_choice. change (fun c => maxcount c q) with (fmax q). rewrite map_app, emaxl_app, Lm, Rm. reflexivity. }
-      rewrite E. apply emul_0_r.
-    - intros E. rewrite minsum_app, (L2 E), (R2 E). reflexivity.
-  Qed.
-
-  Lemma A_all : forall c, A_stmt c.
-  Proof.
-    apply raw_content_ind'. intros name type occur l r IHl IHr. unfold A_stmt. intros dc m mn ch p Hp Hm.
-    assert (Al : A_kid l) by (apply A_kid_of; exact IHl).
-    assert (Ar : A_kid r) by (apply A_kid_of; exact IHr).
-    destruct (parse_content_inv _ _ _ _ _ _ Hp) as [o [t [l' [r' [Ho [Ht [-> [Pl Pr]]]]]]]].
-    destruct (type_cases _ _ Ht) as [[-> ->]|[[-> ->]|[[-> ->]|[-> ->]]]].
-    - (* pcdata *) rewrite cm_pcdata in Hm. inversion Hm; subst. rewrite bc_pcdata. rewrite cap_value, minsum_value.
-      split; [left; reflexivity|reflexivity].
-    - (* element *) rewrite cm_element in Hm. destruct name as [n|]; [|discriminate].
-      rewrite bc_element. cbn [build_restrictions oname]. rewrite cap_element_unbounded, minsum_element.
-      destruct (with_occur_spec _ _ _ Hm) as [n0 [mx [_ Hq]]]. destruct (Hq q) as [Hmax _].
-      rewrite Hmax, maxcount_elem. destruct (str_eqb n q).
-      + split; [right; reflexivity|]. intros ->. reflexivity.
-      + split; [left; apply emul_0_r|reflexivity].
-    - (* seq *) rewrite cm_seq in Hm. destruct (kids_cms l r) as [ks|] eqn:Ek; [|discriminate].
-      apply (A_node Seq name occur l r _ m mn ch p M_SEQ o l' r' ks); auto using bc_seq.
-    - (* or *) rewrite cm_or in Hm. destruct (kids_cms l r) as [ks|] eqn:Ek; [|discriminate].
-      apply (A_node Choice name occur l r _ m mn ch p M_OR o l' r' ks); auto using bc_or.
-  Qed.
-End Below.
-
-(* ------------------------------------------------------------------ B: below a choice that occurs at most once, if nothing repeats *)
-Lemma with_occur_bounded occur c m q :
-  with_occur occur c = Some m -> occur_bounded occur = true -> maxcount m q = maxcount c q.
+(* ------------------------------------------------------------------ more enat facts *)
+Lemma enat_leb_trans a b c : enat_leb a b = true -> enat_leb b c = true -> enat_leb a c = true.
+Proof. destruct a, b, c; cbn; auto; try discriminate. rewrite !Nat.leb_le. lia. Qed.
+Lemma emul_eadd_distr k a b : emul k (eadd a b) = eadd (emul k a) (emul k b).
+Proof. destruct k as [[|x]|], a as [[|a]|], b as [[|b]|]; cbn; try reflexivity; f_equal; lia. Qed.
+Lemma emul_emax_le k a b : enat_leb (emul k (emax a b)) (eadd (emul k a) (emul k b)) = true.
 Proof.
-  intros Hw Hb. destruct (with_occur_spec _ _ _ Hw) as [mn [mx [Hs Hq]]]. destruct (Hq q) as [-> _].
-  unfold spec_occ in Hs. unfold occur_bounded in Hb.
-  destruct (str_eqb occur S_once); [inversion Hs; apply emul_1_l|].
-  destruct (str_eqb occur S_opt); [inversion Hs; apply emul_1_l|]. discriminate.
+  destruct k as [[|x]|], a as [[|a]|], b as [[|b]|]; cbn; try reflexivity; try (apply Nat.leb_le; lia).
+  all: destruct (Nat.max a b) eqn:E; cbn; try reflexivity; try (apply Nat.leb_le; nia).
 Qed.
-
-Lemma norep_inv name type occur l r :
-  norep (RC name type occur l r) = true ->
-  occur_bounded occur = true /\ (forall c, l = Some c -> norep c = true) /\ (forall c, r = Some c -> norep c = true).
-Proof.
-  cbn [norep]. intros H. apply andb_true_iff in H as [H Hr]. apply andb_true_iff in H as [Ho Hl].
-  split; [exact Ho|]. split; intros c ->; assumption.
-Qed.
-
-Section BelowOnce.
-  Variable q : name.
-
-  Definition B_stmt (c : raw_content) : Prop :=
-    forall dc m mn ch p, parse_content c = Some dc -> cm_of_raw c = Some m -> norep c = true ->
-      enat_leb (maxcount m q) (cap (build_content dc (Some (mn, 1%N, ch)) p) q) = true
-      /\ (mn = 0%N -> minsum (build_content dc (Some (mn, 1%N, ch)) p) q = 0).
-
-  Definition B_kid (x : option raw_content) : Prop :=
-    forall x' ks mn ch p, kid_parsed x x' -> kid_cms x = Some ks -> (forall c, x = Some c -> norep c = true) ->
-      (enat_leb (esum (map (fmax q) ks)) (cap (kid_attrs x' (Some (mn, 1%N, ch)) p) q) = true
-       /\ enat_leb (emaxl (map (fmax q) ks)) (cap (kid_attrs x' (Some (mn, 1%N, ch)) p) q) = true)
-      /\ (mn = 0%N -> minsum (kid_attrs x' (Some (mn, 1%N, ch)) p) q = 0).
-
-  Lemma B_kid_of x : (forall c, x = Some c -> B_stmt c) -> B_kid x.
-  Proof.
-    intros IH x' ks mn ch p Hp Hk Hn. destruct x as [c|], x' as [c'|]; cbn in Hp; try contradiction.
-    - cbn [kid_cms] in Hk. destruct (cm_of_raw c) as [m|] eqn:Em; [|discriminate]. inversion Hk; subst.
-      destruct (IH c eq_refl c' m mn ch p Hp Em (Hn c eq_refl)) as [H1 H2]. split; [|exact H2].
-      cbn [map]. unfold esum, emaxl, fmax. cbn [fold_right kid_attrs]. rewrite eadd_0_r, emax_0_r. split; exact H1.
-    - inversion Hk; subst. cbn [kid_attrs map]. rewrite cap_nil. split; [split; reflexivity|]. intros _. reflexivity.
-  Qed.
-
-  Lemma B_node (mk : list cm -> cm) name occur l r m mn ch p t o l' r' ks :
-    (mk = Seq \/ mk = Choice) ->
-    B_kid l -> B_kid r -> kid_parsed l l' -> kid_parsed r r' ->
-    (forall c, l = Some c -> norep c = true) -> (forall c, r = Some c -> norep c = true) -> occur_bounded occur = true ->
-    kids_cms l r = Some ks -> with_occur occur (mk ks) = Some m ->
-    build_content (DC name t o l' r') (Some (mn, 1%N, ch)) p =
-      kid_attrs l' (Some (mn, 1%N, ch)) (p ++ [false]) ++ kid_attrs r' (Some (mn, 1%N, ch)) (p ++ [true]) ->
-    enat_leb (maxcount m q) (cap (build_content (DC name t o l' r') (Some (mn, 1%N, ch)) p) q) = true
-    /\ (mn = 0%N -> minsum (build_content (DC name t o l' r') (Some (mn, 1%N, ch)) p) q = 0).
-  Proof.
-    intros Hmk Bl Br Pl Pr Nl Nr Hb Hk Hw Hbc. rewrite Hbc.
-    apply kids_cms_inv in Hk as [a [b [Ka [Kb ->]]]].
-    destruct (Bl l' a mn ch (p ++ [false]) Pl Ka Nl) as [[Ls Lm] L2].
-    destruct (Br r' b mn ch (p ++ [true]) Pr Kb Nr) as [[Rs Rm] R2].
-    split.
-    - rewrite (with_occur_bounded _ _ _ q Hw Hb), cap_app. destruct Hmk as [-> | ->].
-      + rewrite maxcount_seq. change (fun c => maxcount c q) with (fmax q). rewrite map_app, esum_app.
-        apply enat_leb_eadd; assumption.
-      + rewrite maxcount_choice. change (fun c => maxcount c q) with (fmax q). rewrite map_app, emaxl_app.
-        apply enat_leb_emax_eadd; assumption.
-    - intros E. rewrite minsum_app, (L2 E), (R2 E). reflexivity.
-  Qed.
-
-  Lemma B_all : forall c, B_stmt c.
-  Proof.
-    apply raw_content_ind'. intros name type occur l r IHl IHr. unfold B_stmt. intros dc m mn ch p Hp Hm Hn.
-    assert (Bl : B_kid l) by (apply B_kid_of; exact IHl).
-    assert (Br : B_kid r) by (apply B_kid_of; exact IHr).
-    destruct (norep_inv _ _ _ _ _ Hn) as [Hb [Nl Nr]].
-    destruct (parse_content_inv _ _ _ _ _ _ Hp) as [o [t [l' [r' [Ho [Ht [-> [Pl Pr]]]]]]]].
-    destruct (type_cases _ _ Ht) as [[-> ->]|[[-> ->]|[[-> ->]|[-> ->]]]].
-    - rewrite cm_pcdata in Hm. inversion Hm; subst. rewrite bc_pcdata. rewrite cap_value, minsum_value.
-      split; reflexivity.
-    - rewrite cm_element in Hm. destruct name as [n|]; [|discriminate].
-      rewrite bc_element. cbn [build_restrictions oname]. rewrite cap_element_one, minsum_element.
-      rewrite (with_occur_bounded _ _ _ q Hm Hb), maxcount_elem. destruct (str_eqb n q).
-      + split; [reflexivity|]. intros ->. reflexivity.
-      + split; reflexivity.
-    - rewrite cm_seq in Hm. destruct (kids_cms l r) as [ks|] eqn:Ek; [|discriminate].
-      apply (B_node Seq name occur l r m mn ch p M_SEQ o l' r' ks); auto using bc_seq.
-    - rewrite cm_or in Hm. destruct (kids_cms l r) as [ks|] eqn:Ek; [|discriminate].
-      apply (B_node Choice name occur l r m mn ch p M_OR o l' r' ks); auto using bc_or.
-  Qed.
-End BelowOnce.
-
-(* ------------------------------------------------------------------ C: the top level, under the guards *)
-Lemma guard_seq_seq n o l r :
-  guard_seq (RC n S_seq o l r) =
-  occur_once o && match l with Some x => guard_seq x | None => true end && match r with Some x => guard_seq x | None => true end.
-Proof. reflexivity. Qed.
-Lemma guard_or_seq n o l r :
-  guard_or (RC n S_seq o l r) =
-  match l with Some x => guard_or x | None => true end && match r with Some x => guard_or x | None => true end.
-Proof. reflexivity. Qed.
-Lemma guard_or_or n o l r :
-  guard_or (RC n S_or o l r) =
-  negb (occur_bounded o) || (match l with Some x => norep x | None => true end && match r with Some x => norep x | None => true end).
-Proof. reflexivity. Qed.
-
-Lemma occur_once_spec occur c m : with_occur occur c = Some m -> occur_once occur = true -> m = c.
-Proof. unfold with_occur, occur_once. intros H E. rewrite E in H. inversion H. reflexivity. Qed.
-
+Lemma emul_inf_idem x : emul None (emul None x) = emul None x.
+Proof. destruct x as [[|x]|]; reflexivity. Qed.
 Lemma enat_leb_zero a : enat_leb (Some 0) a = true.
 Proof. destruct a; reflexivity. Qed.
 
-Section Top.
+(* ------------------------------------------------------------------ occurrences: specification side and mapper side *)
+Lemma occ_link occur o : decode dtd_content_occur_members occur = Some o ->
+  exists mno mxo mn mx,
+    spec_occ occur = Some (mno, mxo) /\ build_occurs o = (mn, mx) /\
+    ((mn = 0%N /\ mno = 0) \/ (mn = 1%N /\ mno = 1)) /\
+    ((mx = 1%N /\ mxo = Some 1) \/ (mx = sys_maxsize /\ mxo = None)).
+Proof.
+  intros H. destruct (occur_cases _ _ H) as [[-> ->]|[[-> ->]|[[-> ->]|[-> ->]]]].
+  - exists 1, (Some 1), 1%N, 1%N. repeat split; auto.
+  - exists 0, (Some 1), 0%N, 1%N. repeat split; auto.
+  - exists 0, None, 0%N, sys_maxsize. repeat split; auto.
+  - exists 1, None, 1%N, sys_maxsize. repeat split; auto.
+Qed.
+
+(* the restrictions handed down: min in {0,1}, max in {1, sys.maxsize}, and inside a choice min = 0 *)
+Definition kw_ok (mn0 mx0 : N) (ch : option path) : Prop :=
+  (mn0 = 0%N \/ mn0 = 1%N) /\ (mx0 = 1%N \/ mx0 = sys_maxsize) /\ (ch <> None -> mn0 = 0%N).
+
+Lemma merge_spec occur o mn0 mx0 ch mno mxo :
+  decode dtd_content_occur_members occur = Some o -> spec_occ occur = Some (mno, mxo) -> kw_ok mn0 mx0 ch ->
+  exists mn' mx',
+    merge_occurs o (mn0, mx0, ch) = (mn', mx', ch) /\ kw_ok mn' mx' ch /\
+    N.to_nat mn' = mno * N.to_nat mn0 /\
+    (forall x, emul (E mx0) (emul mxo x) = emul (E mx') x).
+Proof.
+  intros Hd Hs [Hmn [Hmx Hch]].
+  destruct (occur_cases _ _ Hd) as [[-> ->]|[[-> ->]|[[-> ->]|[-> ->]]]]; inversion Hs; subst mno mxo; clear Hs Hd;
+    destruct Hmn as [-> | ->]; destruct Hmx as [-> | ->];
+    (eexists; eexists; split; [reflexivity|]; split;
+     [unfold kw_ok; repeat split; auto; intros Hc; specialize (Hch Hc); try discriminate; reflexivity|];
+     split; [reflexivity|]; intros x; rewrite ?E_one, ?E_max, ?emul_1_l, ?emul_inf_idem; reflexivity).
+Qed.
+
+Lemma or_params_spec occur o mn0 mx0 ch p mno mxo :
+  decode dtd_content_occur_members occur = Some o -> spec_occ occur = Some (mno, mxo) -> kw_ok mn0 mx0 ch ->
+  exists mx' ch',
+    or_params o (mn0, mx0, ch) p = (0%N, mx', ch') /\ kw_ok 0%N mx' ch' /\
+    (forall x, emul (E mx0) (emul mxo x) = emul (E mx') x).
+Proof.
+  intros Hd Hs Hk. destruct (merge_spec _ _ _ _ _ _ _ Hd Hs Hk) as [mn' [mx' [Hm [[Hmn' [Hmx' Hch']] [Hto Hx]]]]].
+  unfold or_params. rewrite Hm. destruct ch as [c|].
+  - assert (mn' = 0%N) by (apply Hch'; discriminate). subst mn'.
+    exists mx', (Some c). repeat split; auto.
+  - exists mx', (Some p). repeat split; auto.
+Qed.
+
+(* ------------------------------------------------------------------ the capacity invariant, for every content tree *)
+Section Capacity.
   Variable q : name.
 
-  Definition C_stmt (c : raw_content) : Prop :=
-    forall dc m p, parse_content c = Some dc -> cm_of_raw c = Some m -> guard_seq c = true -> guard_or c = true ->
-      enat_leb (maxcount m q) (cap (build_content dc None p) q) = true
-      /\ minsum (build_content dc None p) q <= mincount m q.
+  Definition G_stmt (c : raw_content) : Prop :=
+    forall dc m mn0 mx0 ch p, parse_content c = Some dc -> cm_of_raw c = Some m -> kw_ok mn0 mx0 ch ->
+      enat_leb (emul (E mx0) (maxcount m q)) (cap (build_content dc (mn0, mx0, ch) p) q) = true
+      /\ minsum (build_content dc (mn0, mx0, ch) p) q <= N.to_nat mn0 * mincount m q.
 
-  Definition C_kid (x : option raw_content) : Prop :=
-    forall x' ks p, kid_parsed x x' -> kid_cms x = Some ks ->
-      (forall c, x = Some c -> guard_seq c = true) -> (forall c, x = Some c -> guard_or c = true) ->
-      enat_leb (esum (map (fmax q) ks)) (cap (kid_attrs x' None p) q) = true
-      /\ minsum (kid_attrs x' None p) q <= nsum (map (fmin q) ks).
+  Definition G_kid (x : option raw_content) : Prop :=
+    forall x' ks mn0 mx0 ch p, kid_parsed x x' -> kid_cms x = Some ks -> kw_ok mn0 mx0 ch ->
+      enat_leb (emul (E mx0) (esum (map (fmax q) ks))) (cap (kid_attrs x' (mn0, mx0, ch) p) q) = true
+      /\ enat_leb (emul (E mx0) (emaxl (map (fmax q) ks))) (cap (kid_attrs x' (mn0, mx0, ch) p) q) = true
+      /\ minsum (kid_attrs x' (mn0, mx0, ch) p) q <= N.to_nat mn0 * nsum (map (fmin q) ks).
 
-  Lemma C_kid_of x : (forall c, x = Some c -> C_stmt c) -> C_kid x.
+  Lemma G_kid_of x : (forall c, x = Some c -> G_stmt c) -> G_kid x.
   Proof.
-    intros IH x' ks p Hp Hk G1 G2. destruct x as [c|], x' as [c'|]; cbn in Hp; try contradiction.
+    intros IH x' ks mn0 mx0 ch p Hp Hk Hok. destruct x as [c|], x' as [c'|]; cbn in Hp; try contradiction.
     - cbn [kid_cms] in Hk. destruct (cm_of_raw c) as [m|] eqn:Em; [|discriminate]. inversion Hk; subst.
-      destruct (IH c eq_refl c' m p Hp Em (G1 c eq_refl) (G2 c eq_refl)) as [H1 H2].
-      cbn [map]. unfold esum, nsum, fmax, fmin. cbn [fold_right kid_attrs]. rewrite eadd_0_r. split; [exact H1|lia].
-    - inversion Hk; subst. cbn [kid_attrs map]. rewrite cap_nil, minsum_nil. split; [reflexivity|cbn; lia].
+      destruct (IH c eq_refl c' m mn0 mx0 ch p Hp Em Hok) as [H1 H2].
+      cbn [map kid_attrs]. unfold esum, emaxl, nsum, fmax, fmin. cbn [fold_right]. rewrite eadd_0_r, emax_0_r.
+      repeat split; auto. lia.
+    - inversion Hk; subst. cbn [kid_attrs map]. rewrite cap_nil, minsum_nil. unfold esum, emaxl, nsum. cbn [fold_right].
+      rewrite emul_0_r. repeat split; auto. lia.
   Qed.
 
-  Lemma C_all : forall c, C_stmt c.
+  Lemma G_all : forall c, G_stmt c.
   Proof.
-    apply raw_content_ind'. intros name type occur l r IHl IHr. unfold C_stmt. intros dc m p Hp Hm G1 G2.
+    apply raw_content_ind'. intros name type occur l r IHl IHr. unfold G_stmt. intros dc m mn0 mx0 ch p Hp Hm Hok.
+    assert (Gl : G_kid l) by (apply G_kid_of; exact IHl).
+    assert (Gr : G_kid r) by (apply G_kid_of; exact IHr).
     destruct (parse_content_inv _ _ _ _ _ _ Hp) as [o [t [l' [r' [Ho [Ht [-> [Pl Pr]]]]]]]].
     destruct (type_cases _ _ Ht) as [[-> ->]|[[-> ->]|[[-> ->]|[-> ->]]]].
-    - (* pcdata *) rewrite cm_pcdata in Hm. inversion Hm; subst. rewrite bc_pcdata, cap_value, minsum_value.
-      split; [reflexivity|lia].
-    - (* element *) rewrite cm_element in Hm. destruct name as [n|]; [|discriminate]. rewrite bc_element. cbn [oname].
-      destruct (occur_cases _ _ Ho) as [[-> ->]|[[-> ->]|[[-> ->]|[-> ->]]]]; inversion Hm; subst; clear Hm.
-      + change (build_restrictions M_ONCE None) with (1%N, 1%N, @None path).
-        rewrite cap_element_one, minsum_element, maxcount_elem, mincount_elem. destruct (str_eqb n q); split; cbn; auto.
-      + change (build_restrictions M_OPT None) with (0%N, 1%N, @None path).
-        rewrite cap_element_one, minsum_element. unfold opt. rewrite maxcount_occ, emul_1_l, maxcount_elem.
-        destruct (str_eqb n q); split; cbn; auto; lia.
-      + change (build_restrictions M_MULT None) with (0%N, sys_maxsize, @None path).
-        rewrite cap_element_unbounded, minsum_element. unfold star. rewrite maxcount_occ, maxcount_elem.
-        destruct (str_eqb n q); split; cbn; auto; lia.
-      + change (build_restrictions M_PLUS None) with (1%N, sys_maxsize, @None path).
-        rewrite cap_element_unbounded, minsum_element. unfold plus. rewrite maxcount_occ, mincount_occ, maxcount_elem, mincount_elem.
-        destruct (str_eqb n q); split; cbn; auto.
-    - (* seq: the group occurs once *)
+    - (* #PCDATA: no child *)
+      rewrite cm_pcdata in Hm. inversion Hm; subst. rewrite bc_pcdata.
+      destruct (merge_occurs o (mn0, mx0, ch)) as [[a b] c]. rewrite cap_value, minsum_value.
+      change (maxcount (Seq []) q) with (Some 0). rewrite emul_0_r. split; [reflexivity|lia].
+    - (* element *)
+      rewrite cm_element in Hm. destruct name as [n|]; [|discriminate]. rewrite bc_element. cbn [oname].
+      destruct (with_occur_spec _ _ _ Hm) as [mno [mxo [Hs Hq]]]. destruct (Hq q) as [Hmax Hmin].
+      destruct (merge_spec _ _ _ _ _ _ _ Ho Hs Hok) as [mn' [mx' [Hmg [_ [Hto Hx]]]]].
+      rewrite Hmg, cap_element, minsum_element, Hmax, Hmin, Hx, maxcount_elem, mincount_elem.
+      destruct (str_eqb n q).
+      + split; [|nia]. destruct (E mx') as [[|k]|]; cbn; try reflexivity. rewrite Nat.mul_1_r. apply Nat.leb_refl.
+      + rewrite emul_0_r. split; [reflexivity|lia].
+    - (* sequence group *)
       rewrite cm_seq in Hm. destruct (kids_cms l r) as [ks|] eqn:Ek; [|discriminate].
-      rewrite guard_seq_seq in G1. apply andb_true_iff in G1 as [G1 G1r]. apply andb_true_iff in G1 as [Honce G1l].
-      rewrite guard_or_seq in G2. apply andb_true_iff in G2 as [G2l G2r].
-      pose proof (occur_once_spec _ _ _ Hm Honce) as ->.
-      apply kids_cms_inv in Ek as [a [b [Ka [Kb ->]]]]. rewrite bc_seq.
-      destruct (C_kid_of l IHl l' a (p ++ [false]) Pl Ka) as [L1 L2];
-        [intros c ->; exact G1l|intros c ->; exact G2l|].
-      destruct (C_kid_of r IHr r' b (p ++ [true]) Pr Kb) as [R1 R2];
-        [intros c ->; exact G1r|intros c ->; exact G2r|].
-      rewrite cap_app, minsum_app, maxcount_seq, mincount_seq.
+      destruct (with_occur_spec _ _ _ Hm) as [mno [mxo [Hs Hq]]]. destruct (Hq q) as [Hmax Hmin].
+      destruct (merge_spec _ _ _ _ _ _ _ Ho Hs Hok) as [mn' [mx' [Hmg [Hok' [Hto Hx]]]]].
+      apply kids_cms_inv in Ek as [a [b [Ka [Kb ->]]]]. rewrite bc_seq, Hmg.
+      destruct (Gl l' a mn' mx' ch (p ++ [false]) Pl Ka Hok') as [L1 [_ L3]].
+      destruct (Gr r' b mn' mx' ch (p ++ [true]) Pr Kb Hok') as [R1 [_ R3]].
+      rewrite cap_app, minsum_app, Hmax, Hmin, Hx, maxcount_seq, mincount_seq.
       change (fun c => maxcount c q) with (fmax q). change (fun c => mincount c q) with (fmin q).
-      rewrite !map_app, esum_app, nsum_app. split; [apply enat_leb_eadd; assumption|lia].
-    - (* or *)
+      rewrite !map_app, esum_app, nsum_app, emul_eadd_distr. split; [apply enat_leb_eadd; assumption|nia].
+    - (* choice group *)
       rewrite cm_or in Hm. destruct (kids_cms l r) as [ks|] eqn:Ek; [|discriminate].
-      rewrite guard_or_or in G2. rewrite bc_or. cbv zeta.
-      destruct (occur_bounded occur) eqn:Hb; cbn [negb orb] in G2.
-      + (* the choice occurs at most once: nothing below it repeats *)
-        apply andb_true_iff in G2 as [Nl Nr].
-        assert (Ekw : snd (build_occurs o) = 1%N).
-        { destruct (occur_cases _ _ Ho) as [[-> ->]|[[-> ->]|[[-> ->]|[-> ->]]]]; try reflexivity; discriminate. }
-        rewrite Ekw.
-        pose proof (B_node q Choice name occur l r m 0%N p p M_OR o l' r' ks (or_intror eq_refl)
-                      (B_kid_of q l (fun c _ => B_all q c)) (B_kid_of q r (fun c _ => B_all q c)) Pl Pr) as HB.
-        destruct HB as [H1 H2]; auto using bc_or.
-        * intros c ->; exact Nl.
-        * intros c ->; exact Nr.
-        * rewrite bc_or in H1, H2. cbv zeta in H1, H2. split; [exact H1|]. rewrite (H2 eq_refl). lia.
-      + (* the choice is repeated: everything below is unbounded and optional *)
-        assert (Ekw : snd (build_occurs o) = sys_maxsize).
-        { destruct (occur_cases _ _ Ho) as [[-> ->]|[[-> ->]|[[-> ->]|[-> ->]]]]; try reflexivity; discriminate. }
-        rewrite Ekw.
-        pose proof (A_node q Choice name occur l r (DC name M_OR o l' r') m 0%N p p M_OR o l' r' ks (or_intror eq_refl)
-                      (A_kid_of q l (fun c _ => A_all q c)) (A_kid_of q r (fun c _ => A_all q c)) Pl Pr Ek Hm) as HA.
-        destruct HA as [H1 H2]; auto using bc_or.
-        rewrite bc_or in H1, H2. cbv zeta in H1, H2. split.
-        * destruct H1 as [H1|H1]; [rewrite H1; apply enat_leb_zero|rewrite H1; apply enat_leb_none].
-        * rewrite (H2 eq_refl). lia.
+      destruct (with_occur_spec _ _ _ Hm) as [mno [mxo [Hs Hq]]]. destruct (Hq q) as [Hmax Hmin].
+      destruct (or_params_spec _ _ _ _ _ p _ _ Ho Hs Hok) as [mx' [ch' [Hop [Hok' Hx]]]].
+      apply kids_cms_inv in Ek as [a [b [Ka [Kb ->]]]]. rewrite bc_or, Hop.
+      destruct (Gl l' a 0%N mx' ch' (p ++ [false]) Pl Ka Hok') as [_ [L2 L3]].
+      destruct (Gr r' b 0%N mx' ch' (p ++ [true]) Pr Kb Hok') as [_ [R2 R3]].
+      rewrite cap_app, minsum_app, Hmax, Hx, maxcount_choice.
+      change (fun c => maxcount c q) with (fmax q).
+      rewrite !map_app, emaxl_app. split.
+      + eapply enat_leb_trans; [apply emul_emax_le|]. apply enat_leb_eadd; assumption.
+      + cbn in L3, R3. lia.
   Qed.
-End Top.
+End Capacity.
 
 (* ------------------------------------------------------------------ the theorems *)
+Lemma kw_ok_top : kw_ok 1%N 1%N None.
+Proof. unfold kw_ok. repeat split; auto. intros H; congruence. Qed.
+
 Theorem dtd_capacity c dc m :
-  parse_content c = Some dc -> cm_of_raw c = Some m -> dtd_guard c = true ->
-  forall q, enat_leb (maxcount m q) (cap (build_content dc None []) q) = true
-            /\ minsum (build_content dc None []) q <= mincount m q.
+  parse_content c = Some dc -> cm_of_raw c = Some m ->
+  forall q, enat_leb (maxcount m q) (cap (build_content dc no_kwargs []) q) = true
+            /\ minsum (build_content dc no_kwargs []) q <= mincount m q.
 Proof.
-  intros Hp Hm Hg q. unfold dtd_guard in Hg. apply andb_true_iff in Hg as [G1 G2].
-  exact (C_all q c dc m [] Hp Hm G1 G2).
+  intros Hp Hm q. unfold no_kwargs. destruct (G_all q c dc m 1%N 1%N None [] Hp Hm kw_ok_top) as [H1 H2].
+  rewrite E_one, emul_1_l in H1. split; [exact H1|]. cbn in H2. lia.
 Qed.
 
 (* every word of the content model fits the attrs the mapper produced *)
 Corollary dtd_children_fit c dc m w :
-  parse_content c = Some dc -> cm_of_raw c = Some m -> dtd_guard c = true -> lang m w ->
-  forall q, ele (count q w) (cap (build_content dc None []) q) /\ minsum (build_content dc None []) q <= count q w.
+  parse_content c = Some dc -> cm_of_raw c = Some m -> lang m w ->
+  forall q, ele (count q w) (cap (build_content dc no_kwargs []) q) /\ minsum (build_content dc no_kwargs []) q <= count q w.
 Proof.
-  intros Hp Hm Hg HL q. destruct (dtd_capacity c dc m Hp Hm Hg q) as [H1 H2]. split.
+  intros Hp Hm HL q. destruct (dtd_capacity c dc m Hp Hm q) as [H1 H2]. split.
   - eapply ele_trans; [apply count_le_maxcount; exact HL|exact H1].
   - pose proof (mincount_le_count q m w HL). lia.
 Qed.
 
-(* ------------------------------------------------------------------ refutations: the statement without guards is false *)
+(* ------------------------------------------------------------------ the former refutation witnesses, now inside the theorem *)
 Definition el (n : string) (o : str) : raw_content := RC (Some (lit n)) S_element o None None.
 Definition grp (t o : str) (l r : raw_content) : raw_content := RC None t o (Some l) (Some r).
 
-(* (a,b)*  — clause 1 *)
-Definition w_seq_star : raw_content := grp S_seq S_mult (el "a" S_once) (el "b" S_once).
-(* (a,b)?  — clause 1, the "required" half *)
-Definition w_seq_opt : raw_content := grp S_seq S_opt (el "a" S_once) (el "b" S_once).
-(* (a*|b)  — clause 2 *)
-Definition w_or_member : raw_content := grp S_or S_once (el "a" S_mult) (el "b" S_once).
+Definition w_seq_star : raw_content := grp S_seq S_mult (el "a" S_once) (el "b" S_once).     (* (a,b)* *)
+Definition w_seq_opt : raw_content := grp S_seq S_opt (el "a" S_once) (el "b" S_once).       (* (a,b)? *)
+Definition w_or_member : raw_content := grp S_or S_once (el "a" S_mult) (el "b" S_once).     (* (a*|b) *)
 
-Definition capacity_holds (c : raw_content) (q : name) : option bool :=
-  match parse_content c, cm_of_raw c with
-  | Some dc, Some m => Some (enat_leb (maxcount m q) (cap (build_content dc None []) q))
-  | _, _ => None
-  end.
-Definition required_holds (c : raw_content) (q : name) : option bool :=
-  match parse_content c, cm_of_raw c with
-  | Some dc, Some m => Some (minsum (build_content dc None []) q <=? mincount m q)
-  | _, _ => None
-  end.
+Definition attrs_summary (c : raw_content) : option (list (str * option N * option N)) :=
+  option_map (fun dc => map (fun a => (a_name a, a_min a, a_max a)) (build_content dc no_kwargs [])) (parse_content c).
 
-Theorem dtd_capacity_refuted_seq :
-  exists c q, capacity_holds c q = Some false /\ guard_seq c = false /\ guard_or c = true.
-Proof. exists w_seq_star, (lit "a"). vm_compute. auto. Qed.
+(* what failed before 1017a9f / 160d460: a, b exactly once; a at most once *)
+Example dtd_former_witnesses :
+  attrs_summary w_seq_star = Some [(lit "a", Some 0%N, Some sys_maxsize); (lit "b", Some 0%N, Some sys_maxsize)] /\
+  attrs_summary w_seq_opt = Some [(lit "a", Some 0%N, Some 1%N); (lit "b", Some 0%N, Some 1%N)] /\
+  attrs_summary w_or_member = Some [(lit "a", Some 0%N, Some sys_maxsize); (lit "b", Some 0%N, Some 1%N)].
+Proof. repeat split; vm_compute; reflexivity. Qed.
 
-Theorem dtd_required_refuted_seq :
-  exists c q, required_holds c q = Some false /\ guard_seq c = false /\ guard_or c = true.
-Proof. exists w_seq_opt, (lit "a"). vm_compute. auto. Qed.
-
-Theorem dtd_capacity_refuted_or :
-  exists c q, capacity_holds c q = Some false /\ guard_seq c = true /\ guard_or c = false.
-Proof. exists w_or_member, (lit "a"). vm_compute. auto. Qed.
-
-(* the refuted words themselves: valid for the DTD, yet too many / too few for the attrs *)
-Lemma w_seq_star_word : lang (star (Seq [Elem (lit "a"); Elem (lit "b")])) [lit "a"; lit "b"; lit "a"; lit "b"].
-Proof.
-  assert (H : lang (Seq [Elem (lit "a"); Elem (lit "b")]) [lit "a"; lit "b"]).
-  { change [lit "a"; lit "b"] with ([lit "a"] ++ ([lit "b"] ++ [])).
-    apply L_seq_cons; [apply L_elem|]. apply L_seq_cons; [apply L_elem|apply L_seq_nil]. }
-  change [lit "a"; lit "b"; lit "a"; lit "b"] with (List.concat [[lit "a"; lit "b"]; [lit "a"; lit "b"]]).
-  apply L_occ; [cbn; lia|exact I|]. repeat constructor; exact H.
-Qed.
-
-(* namespaces (clause 3): a default xmlns declaration on the root qualifies the root class only *)
+(* namespaces (clause ns): a default xmlns declaration on the root qualifies the root class only *)
 Definition w_default_ns : list raw_element :=
   [mk_raw_element (lit "root") None S_element (Some (el "child1" S_once))
      [mk_raw_attr None S_xmlns (lit "cdata") S_fixed (Some (lit "http://www.example.com/")) []];
@@ -589,18 +439,30 @@ Theorem dtd_default_ns_children_unqualified :
   = Some [(lit "{http://www.example.com/}root", [(lit "child1", None)]); (lit "child1", [])].
 Proof. split; vm_compute; reflexivity. Qed.
 
-(* non-vacuity: a realistic content model inside the guards, and what the mapper makes of it *)
-(* (a,(b|c)+,d?) *)
+(* a realistic content model and what the mapper makes of it: (a,(b|c)+,d?) *)
 Definition w_ok : raw_content :=
   grp S_seq S_once (el "a" S_once)
       (grp S_seq S_once (grp S_or S_plus (el "b" S_once) (el "c" S_once)) (el "d" S_opt)).
 
-Example dtd_guard_nonvacuous :
-  dtd_guard w_ok = true /\
-  option_map (fun dc => map (fun a => (a_name a, a_min a, a_max a)) (build_content dc None [])) (parse_content w_ok)
+Example dtd_mapping_example :
+  attrs_summary w_ok
   = Some [(lit "a", Some 1%N, Some 1%N); (lit "b", Some 0%N, Some sys_maxsize); (lit "c", Some 0%N, Some sys_maxsize);
           (lit "d", Some 0%N, Some 1%N)].
-Proof. split; vm_compute; reflexivity. Qed.
+Proof. vm_compute; reflexivity. Qed.
+
+(* clause orseq (compound fields): (from|(Tag,sub-item,n1)): the mapper keeps capacity per name (dtd_capacity),
+   but all four attrs carry one and the same choice id with max_occurs 1 — CreateCompoundFields folds them into one
+   one-item field — while a word of the model has three children *)
+Definition w_or_seq : raw_content :=
+  grp S_or S_once (el "from" S_once)
+      (grp S_seq S_once (el "Tag" S_once) (grp S_seq S_once (el "sub-item" S_once) (el "n1" S_once))).
+
+Theorem dtd_choice_of_sequence_one_choice_id :
+  guard_orseq w_or_seq = false /\
+  option_map (fun dc => map (fun a => (a_max a, a_choice a)) (build_content dc no_kwargs [])) (parse_content w_or_seq)
+  = Some [(Some 1%N, Some []); (Some 1%N, Some []); (Some 1%N, Some []); (Some 1%N, Some [])] /\
+  option_map (maxcountP (fun _ => true)) (cm_of_raw w_or_seq) = Some (Some 3).
+Proof. repeat split; vm_compute; reflexivity. Qed.
 
 (* ------------------------------------------------------------------ attributes *)
 Definition model_enum (a : dtd_attribute) : option (list str) :=
@@ -638,7 +500,8 @@ Proof.
   repeat (destruct H as [H|H]; [inversion H; subst; clear H; auto 6|]). destruct H.
 Qed.
 
-(* #REQUIRED / #IMPLIED / #FIXED / default  ->  required / optional / fixed / default, enumerations -> the declared tokens *)
+(* #REQUIRED / #IMPLIED / #FIXED / default  ->  required / optional / fixed / default (with the "&#38;" libxml2
+   leaves in the value expanded), enumerations -> the declared tokens *)
 Theorem dtd_attr_compat ra da qn d m :
   parse_attribute ra = Some da -> attr_decl_of_raw qn ra = Some d ->
   attr_compat d (afield_of_attr qn (build_attribute m da) (model_enum da)) = true.
@@ -651,7 +514,8 @@ Proof.
   unfold attr_compat. cbn [ad_name ad_enum ad_use afield_of_attr af_name af_enum af_default af_fixed af_required].
   unfold name_eqb. rewrite str_eqb_refl. cbn [andb].
   assert (Henum : enum_eqb (enum_of_raw ra)
-                    (model_enum (mk_dtd_attribute (ra_name ra) (ra_prefix ra) t dk (ra_default_value ra) (ra_values ra))) = true).
+                    (model_enum (mk_dtd_attribute (ra_name ra) (ra_prefix ra) t dk
+                                                  (option_map expand_amp38 (ra_default_value ra)) (ra_values ra))) = true).
   { unfold enum_of_raw. destruct (attr_type_cases _ _ Et) as [[E1 ->]|[E1 E2]].
     - rewrite E1. change (str_eqb S_enumeration S_enumeration) with true. cbv iota.
       rewrite model_enum_values by reflexivity. apply enum_eqb_refl.
@@ -665,33 +529,24 @@ Proof.
     cbv iota in Eu. inversion Eu; subst u. reflexivity.
   - change (str_eqb S_fixed S_required) with false in Eu. change (str_eqb S_fixed S_implied) with false in Eu.
     change (str_eqb S_fixed S_fixed) with true in Eu. cbv iota in Eu.
-    destruct (ra_default_value ra) as [v|]; [|discriminate]. cbn in Eu. inversion Eu; subst u.
-    change (build_attribute_restrictions (lit "FIXED") (Some v)) with (Some v, true, 1%N).
+    destruct (ra_default_value ra) as [v|]; [|discriminate]. cbn in Eu. inversion Eu; subst u. cbn [option_map].
+    change (build_attribute_restrictions (lit "FIXED") (Some (expand_amp38 v))) with (Some (expand_amp38 v), true, 1%N).
     cbn [a_default a_fixed a_min]. rewrite str_eqb_refl. reflexivity.
   - change (str_eqb S_none S_required) with false in Eu. change (str_eqb S_none S_implied) with false in Eu.
     change (str_eqb S_none S_fixed) with false in Eu. change (str_eqb S_none S_none) with true in Eu. cbv iota in Eu.
-    destruct (ra_default_value ra) as [v|]; [|discriminate]. cbn in Eu. inversion Eu; subst u.
-    change (build_attribute_restrictions (lit "NONE") (Some v)) with (Some v, false, 1%N).
+    destruct (ra_default_value ra) as [v|]; [|discriminate]. cbn in Eu. inversion Eu; subst u. cbn [option_map].
+    change (build_attribute_restrictions (lit "NONE") (Some (expand_amp38 v))) with (Some (expand_amp38 v), false, 1%N).
     cbn [a_default a_fixed a_min]. rewrite str_eqb_refl. reflexivity.
 Qed.
 
-(* ... so an absent attribute re-materialises exactly as the DTD prescribes, a present one is kept,
-   a value outside the enumeration or different from the #FIXED one cannot occur in a valid document *)
 Theorem dtd_attr_defaults ra da qn d m present :
   parse_attribute ra = Some da -> attr_decl_of_raw qn ra = Some d -> valid_attr d present = true ->
   afield_roundtrip (afield_of_attr qn (build_attribute m da) (model_enum da)) present = Some (effective d present).
 Proof. intros Hp Hd Hv. apply attr_compat_sound; [eapply dtd_attr_compat; eauto|exact Hv]. Qed.
 
-(* clause 4 (compound fields): (from|(Tag,sub-item,n1)) is inside guard_seq / guard_or, the mapper keeps capacity per name,
-   but all four attrs carry one and the same choice id with max_occurs 1 — CreateCompoundFields folds them into one
-   one-item field — while a word of the model has three children *)
-Definition w_or_seq : raw_content :=
-  grp S_or S_once (el "from" S_once)
-      (grp S_seq S_once (el "Tag" S_once) (grp S_seq S_once (el "sub-item" S_once) (el "n1" S_once))).
-
-Theorem dtd_choice_of_sequence_one_choice_id :
-  dtd_guard w_or_seq = true /\ guard_orseq w_or_seq = false /\
-  option_map (fun dc => map (fun a => (a_max a, a_choice a)) (build_content dc None [])) (parse_content w_or_seq)
-  = Some [(Some 1%N, Some []); (Some 1%N, Some []); (Some 1%N, Some []); (Some 1%N, Some [])] /\
-  option_map (maxcountP (fun _ => true)) (cm_of_raw w_or_seq) = Some (Some 3).
-Proof. repeat split; vm_compute; reflexivity. Qed.
+(* the former F7 witness: "R&amp;D" arrives from lxml as R&#38;D and is declared/generated as R&D *)
+Example dtd_default_ampersand :
+  option_map da_default_value
+    (parse_attribute (mk_raw_attr None (lit "a") (lit "cdata") S_none (Some (lit "R&#38;D")) []))
+  = Some (Some (lit "R&D")).
+Proof. vm_compute; reflexivity. Qed.
